@@ -182,6 +182,62 @@ theorem c06_model_ok_gen (O : Oracles) (a : ActionDecl) (kw : Kwargs) (H : Hyp O
   rw [escape_table_pin, ns_attr_pin]
   exact c06_model_ok O _ a kw exc_hierarchy_pin.1 exc_hierarchy_pin.2 H
 
+/-! ### histories -/
+
+/-- what can happen to one long-lived device / service / action object between and during calls -/
+inductive HOp
+  | call (kw : Kwargs)            -- `action.async_call(**kw)`
+  | reinit (deviceUrl : Str)      -- `UpnpDevice.reinit(new_device)`: the description URL is replaced
+
+/-- The model of a history.  Request construction (`asyncCallSend`) is a **pure function of the
+    current declaration — device description URL, service control URL, action, declared arguments —
+    and the assignment**: it has no other input, so nothing of an earlier call (accepted or refused)
+    can influence a later one, and a re-initialisation acts only through the declaration's
+    `deviceUrl`.  Each entry: the declaration in force, the assignment, the observation. -/
+def runHistory (O : Oracles) (anc : String → List String) (a : ActionDecl) :
+    List HOp → List (ActionDecl × Kwargs × Obs)
+  | [] => []
+  | .call kw :: r => (a, kw, modelObs anc (asyncCallSend O crTable true a kw)) :: runHistory O anc a r
+  | .reinit u :: r => runHistory O anc { a with deviceUrl := u } r
+
+/-- **Every call of every history** satisfies the judge with the declaration in force at that call:
+    an invalid assignment is refused before anything is sent *every time* it is tried, a valid one
+    after any number of refusals is sent in full, and after a re-initialisation the request goes to
+    the control URL resolved against the NEW description URL with the matching `Host`. -/
+theorem c06_history_ok (O : Oracles) (anc : String → List String)
+    (hanc1 : (anc "UpnpError").contains "UpnpError" = true)
+    (hanc2 : (anc "UpnpValueError").contains "UpnpError" = true) (ops : List HOp) :
+    ∀ (a : ActionDecl), ∀ e ∈ runHistory O anc a ops, Hyp O e.1 e.2.1 → ok O e.1 e.2.1 e.2.2 = true := by
+  induction ops with
+  | nil => intro a e he; simp [runHistory] at he
+  | cons op r ih =>
+    intro a e he
+    cases op with
+    | call kw =>
+      simp only [runHistory, List.mem_cons] at he
+      rcases he with rfl | he
+      · intro H; exact c06_model_ok O anc a kw hanc1 hanc2 H
+      · exact ih a e he
+    | reinit u => exact ih _ e he
+
+/-- repeating an assignment gives the same observation, whatever happened in between (no re-init) -/
+theorem repeat_same (O : Oracles) (anc : String → List String) (a : ActionDecl) (kw : Kwargs)
+    (between : List Kwargs) :
+    (runHistory O anc a (.call kw :: between.map HOp.call ++ [.call kw])).getLast?
+      = (runHistory O anc a [.call kw]).getLast? := by
+  have h : ∀ (l : List Kwargs) (x : ActionDecl × Kwargs × Obs),
+      (runHistory O anc a (l.map HOp.call ++ [.call kw])).getLast? = some (a, kw, modelObs anc (asyncCallSend O crTable true a kw)) := by
+    intro l x
+    induction l with
+    | nil => simp [runHistory]
+    | cons k t ih =>
+      simp only [List.map_cons, List.cons_append, runHistory]
+      rw [List.getLast?_cons_of_ne_nil]
+      · exact ih
+      · cases t <;> simp [runHistory]
+  have := h (kw :: between) (a, kw, modelObs anc (asyncCallSend O crTable true a kw))
+  simpa [runHistory] using this
+
 /-! ### non-vacuity -/
 
 section Example
